@@ -234,7 +234,7 @@ class World:
             r = explicit.unlink(O(a[0]), O(a[1]), destroy=bool(a[2]))
             if r is None:
                 return []
-            return sorted(self.n_link(e) for e in r)
+            return [0] + sorted(self.n_link(e) for e in r)      # a set (possibly empty) is not None: marker 0 first
         if op == "uadd":
             O(self.NV + a[0]).add_vertex(O(a[1]))
             return []
